@@ -29,6 +29,27 @@ def gen_scenario(rng, tier):
     else:
         scn = c07.gen_scenario(rng, tier)
     scn['_family'] = fam
+    if fam in ('c04', 'c07') and rng.random() < 0.3:
+        # one of the first lines is far longer than any read-ahead a gzip-specific code path
+        # might use (8 KiB .. 64 KiB): still one line, still dated by its first bytes
+        data = S.file_bytes(scn['files'][0])
+        ls = data.split(b'\n')
+        if len(ls) > 2 and 'gzip' not in scn['files'][0]:
+            k = rng.choice([0, 1, 1, 2])
+            ls[k] = ls[k] + b' ' + b'y' * rng.choice([8200, 9000, 17000, 40000, 70000])
+            scn['files'][0] = dict(scn['files'][0], content=b'\n'.join(ls).hex())
+            if scn.get('global') is not None and rng.random() < 0.7:
+                # ... and the file-level since date is exactly that line's timestamp
+                from datetime import timedelta
+                from vh import matchers
+                g = scn['global']
+                kind = scn['constraints'][g].get('matcher', 'std')
+                t = matchers.oracle_ts(kind, ls[k][:64])
+                if t is not None:
+                    cons = list(scn['constraints'])
+                    cons[g] = {'current': (t + timedelta(days=1)).strftime('%Y-%m-%d %H:%M:%S'),
+                               'days': 1, 'matcher': kind}
+                    scn['constraints'] = cons
     n = len(S.file_bytes(scn['files'][0]))
     encs = [{'level': 1}, {'level': 6}, {'level': 9}]
     members = rng.choice([2, 3, 4])
